@@ -44,10 +44,12 @@ pub fn active() -> bool {
 pub mod sync {
     use super::{active, sched_point};
     use std::ops::{Deref, DerefMut};
+    use std::sync::atomic::Ordering::SeqCst;
 
-    /// See the module documentation.
+    /// See the module documentation. The second field counts the hooked tasks that wait
+    /// for exclusive access.
     #[derive(Debug, Default)]
-    pub struct RwLock<T>(parking_lot::RwLock<T>);
+    pub struct RwLock<T>(parking_lot::RwLock<T>, std::sync::atomic::AtomicUsize);
 
     /// Shared guard of [`RwLock`].
     #[derive(Debug)]
@@ -60,7 +62,7 @@ pub mod sync {
     impl<T> RwLock<T> {
         /// New unlocked lock.
         pub const fn new(value: T) -> Self {
-            Self(parking_lot::RwLock::new(value))
+            Self(parking_lot::RwLock::new(value), std::sync::atomic::AtomicUsize::new(0))
         }
 
         /// Shared access; see the module documentation.
@@ -70,8 +72,13 @@ pub mod sync {
             }
             sched_point("rwlock.read");
             loop {
-                if let Some(g) = self.0.try_read() {
-                    return RwLockReadGuard(Some(g));
+                // parking_lot queues fairly: `read()` waits behind a writer that is already
+                // waiting, even if the lock is only held shared (a second `read()` of a task
+                // that still holds a read guard can therefore wait for ever)
+                if self.1.load(SeqCst) == 0 {
+                    if let Some(g) = self.0.try_read() {
+                        return RwLockReadGuard(Some(g));
+                    }
                 }
                 sched_point("rwlock.blocked");
             }
@@ -83,9 +90,17 @@ pub mod sync {
                 return RwLockWriteGuard(Some(self.0.write()));
             }
             sched_point("rwlock.write");
+            let mut waiting = false;
             loop {
                 if let Some(g) = self.0.try_write() {
+                    if waiting {
+                        self.1.fetch_sub(1, SeqCst);
+                    }
                     return RwLockWriteGuard(Some(g));
+                }
+                if !waiting {
+                    waiting = true;
+                    self.1.fetch_add(1, SeqCst);
                 }
                 sched_point("rwlock.blocked");
             }
